@@ -22,7 +22,7 @@ from valida.schema import Schema
 META = {
     "rule": "seeds x deviations: 1a = one definite error (unknown datum kind / pre-processor / callable incl. every "
             "dir() name of the condition class / type name / path suffix incl. every dir(DataPath) name / part type / "
-            "part argument / cast type; wrong arity or argument shape; two keys; missing rule field) at every "
+            "part argument / cast type; wrong arity or argument shape (incl. a well-formed data-path spec where a list / keyword mapping is required); two keys; missing rule field) at every "
             "applicable position -> must be rejected; 1b = every single structural mutation (12 replacement values at "
             "every node, key deletion, element deletion / duplication, stray key, list wrap / unwrap) -> accepted or "
             "rejected with an allowed type; 2 = all pairs of mutations on a seed subset; a case is one mutated spec "
